@@ -531,6 +531,24 @@ fn analyze_match_pattern(
                 narrowed_type_id,
             ))
         }
+        ast::Match::Type(ast_type) if type_as_pattern(ast_type).is_some() => {
+            // A type that spells out a tuple with fields (`=([A] | [[]])`, `=B(y: ('int | []))`):
+            // test it field by field, as the same thing written without the parentheses
+            // (`=[A]`, a tuple PATTERN with type sub-patterns) is. A whole-value `IsType` only
+            // knows the value's construction-site tuple id, whose field types may be wider than
+            // what the value actually holds (`[5 =4]` is a `[(Ok | [])]`, and holds `[[]]`).
+            let pattern = type_as_pattern(ast_type).expect("checked by the guard");
+            analyze_match_pattern(
+                env,
+                program,
+                &pattern,
+                value_type_id,
+                path,
+                identifiers,
+                scopes,
+                value_provenance,
+            )
+        }
         ast::Match::Type(ast_type) => {
             // A type assertion, e.g. `='int` or an intersection `=('t & 'u)`. Each intersection
             // member is checked separately (see `type_check_requirements`); the narrowed type
@@ -545,6 +563,52 @@ fn analyze_match_pattern(
                 narrowed_type_id,
             ))
         }
+    }
+}
+
+/// The pattern that tests a type structurally, if the type spells out a tuple (or partial) type with
+/// fields somewhere a whole-value test would otherwise decide: a tuple type becomes a tuple pattern
+/// whose sub-patterns are the field types (converted in turn), a partial type a partial pattern, a
+/// union of such an alternation. `None` when nothing changes (primitive types, field-less tuples,
+/// aliases, function / process types, back-references, type spreads).
+fn type_as_pattern(ast_type: &ast::Type) -> Option<ast::Match> {
+    let sub = |t: &ast::Type| type_as_pattern(t).unwrap_or_else(|| ast::Match::Type(t.clone()));
+    match ast_type {
+        ast::Type::Tuple(tuple) if !tuple.fields.is_empty() => {
+            let mut fields = Vec::with_capacity(tuple.fields.len());
+            for field in &tuple.fields {
+                match field {
+                    ast::FieldType::Field { name, type_def } => fields.push((name.clone(), sub(type_def))),
+                    ast::FieldType::Spread { .. } => return None,
+                }
+            }
+            if tuple.is_partial {
+                let mut partial_fields = Vec::with_capacity(fields.len());
+                for (name, pattern) in fields {
+                    partial_fields.push(ast::PartialPatternField {
+                        name: name?,
+                        name_span: ast::Spanned(None),
+                        pattern: Some(pattern),
+                    });
+                }
+                Some(ast::Match::Partial(ast::PartialPattern {
+                    name: tuple.name.clone(),
+                    fields: partial_fields,
+                }))
+            } else {
+                Some(ast::Match::Tuple(ast::MatchTuple {
+                    name: tuple.name.clone(),
+                    fields: fields
+                        .into_iter()
+                        .map(|(name, pattern)| ast::MatchField { name, pattern })
+                        .collect(),
+                }))
+            }
+        }
+        ast::Type::Union(union) if union.types.iter().any(|t| type_as_pattern(t).is_some()) => {
+            Some(ast::Match::Or(union.types.iter().map(sub).collect()))
+        }
+        _ => None,
     }
 }
 
